@@ -103,6 +103,15 @@ def split_render(htm: str) -> Tuple[List[str], List[str], List[Any]]:
     return toks, pres, sections
 
 
+def trim_block(s: str) -> str:
+    lines = [l.rstrip() for l in s.split('\n')]
+    while lines and lines[0] == '':
+        lines.pop(0)
+    while lines and lines[-1] == '':
+        lines.pop()
+    return '\n'.join(lines)
+
+
 def norm_block(s: str) -> str:
     """verbatim blocks are compared up to their common indentation, trailing blanks of a line and blank lines at the
     two ends (source layout, not text)"""
@@ -145,6 +154,15 @@ def oracle_doc(doc: Dict[str, Any], fmt: str, obs: Dict[str, Any]) -> Optional[D
         return {'class': 'verbatim-block-count', 'what': '%d verbatim blocks rendered, %d written' % (len(pres), len(want_pres))}
     for got, (kind, want) in zip(pres, want_pres):
         g, w = norm_block(got), norm_block(want)
+        if g == w:
+            # character for character includes the indentation: epytext keeps a literal block's indentation relative to
+            # the paragraph that introduces it (4 columns as serialised here), everything else is shown flush
+            lead = '    ' if (fmt == 'epytext' and kind == 'literal') else ''
+            ge = trim_block(got)
+            we = '\n'.join((lead + l) if l.strip() else '' for l in textwrap.dedent(trim_block(want)).split('\n'))
+            if ge != we:
+                return {'class': 'verbatim-indentation', 'what': '%s block: the leading white space of its lines is altered: '
+                        'expected %r got %r' % (kind, we, ge)}
         if g != w:
             pat = ''.join(' {1,8}' if ch == '\t' else re.escape(ch) for ch in w)
             if '\t' in w and re.fullmatch(pat, g):
